@@ -138,7 +138,7 @@ def evaluate(case) -> Result:
                 break
             hbh += 1
             t_before = w.k.now
-            expect_new = []          # descriptors of frames the node must emit in this step
+            ref_before = ref
             if s in ("ADV1", "ADVT"):
                 dt = 1 if s == "ADV1" else T + c["timers"]["wakeup"] + 2
                 w.advance(dt)
@@ -160,6 +160,13 @@ def evaluate(case) -> Result:
             nc = w.node_conn_for(conn)
             is_ready = nc is not None and nc.state in peer_mod.PEER_READY_STATES
 
+            if (state in ("awaiting", "rejected5010") and s not in ("ADV1", "ADVT") and int(t_before) - ref_before > T
+                    and conn.node_closed and not new and not new_req and not is_ready):
+                # the bytes arrived after the timeout had run out: the node may close instead of reading them
+                state = "closed"
+                outcome = "timeout"
+                res.classes.append("arrival-after-timeout")
+                break
             if state in ("awaiting", "rejected5010"):
                 expected_ce = (direction == "in" and s in CER_SYMS and state == "awaiting") or \
                               (direction == "out" and s.startswith("CEA_"))
